@@ -7,10 +7,9 @@ package vharn
 import (
 	"bytes"
 	"io"
+	"mime/multipart"
 	"net/http"
 	"net/url"
-
-	"github.com/johannesboyne/gofakes3/internal/vsym"
 )
 
 // Recorder is the http.ResponseWriter handed to ServeHTTP.
@@ -57,6 +56,7 @@ type Req struct {
 	Host   string
 	Body   io.Reader
 	Length int64 // ContentLength field
+	Form   *multipart.Form
 }
 
 func (q Req) Build() *http.Request {
@@ -75,7 +75,7 @@ func (q Req) Build() *http.Request {
 		body = io.NopCloser(q.Body)
 	}
 	return &http.Request{Method: q.Method, URL: u, Header: h, Host: host, Body: body, ContentLength: q.Length,
-		Proto: "HTTP/1.1", ProtoMajor: 1, ProtoMinor: 1}
+		Proto: "HTTP/1.1", ProtoMajor: 1, ProtoMinor: 1, MultipartForm: q.Form}
 }
 
 // Do sends a request through handler h and returns the recorder.
@@ -127,6 +127,4 @@ func HexLower(b []byte) string {
 	return string(out)
 }
 
-func hexNibble(n byte) byte {
-	return '0' + n + vsym.IteByte(n < 10, 0, 'a'-'0'-10)
-}
+func hexNibble(n byte) byte { return hexdigits[n&15] }
